@@ -567,10 +567,16 @@ def recurring_life(run, rng, origin):
 # (D,E) deferred batches, isolation
 # ----------------------------------------------------------------------
 
+NEGATIVE_WAITS = []
+
+
 def fake_asyncore_loop(limit):
     """stands in for the I/O wait of core.run(): returns at once when the
     wake-up trigger is set, otherwise lets `timeout` virtual seconds pass"""
     def loop(timeout=30.0, use_poll=False, map=None, count=None):
+        if timeout is not None and timeout < 0:
+            NEGATIVE_WAITS.append(timeout)      # select() refuses a negative timeout: the real loop would raise here
+            timeout = 0.0
         trig = CLK.tm.trigger
         if trig.isSet():
             trig.clear()
@@ -592,6 +598,53 @@ def drive_with_core_run(duration):
 
 
 KINDS = [0]
+
+
+def slow_task_case(run, rng, loop_kind):
+    """tasks whose processing takes time (the clock moves while they run): several others are overdue together afterwards.
+    Each still fires once, in order of due time, in the same pass, and the loop is never asked to wait a negative time"""
+    fresh()
+    del NEGATIVE_WAITS[:]
+    log = []
+    base = CLK.now
+    plan = []
+    t = 0.0
+    for i in range(rng.randrange(3, 8)):
+        t += rng.choice([0.2, 0.5, 1.0])
+        plan.append((t, rng.choice([0.0, 0.0, 0.7, 2.0, 3.5])))
+    wit = {"loop": loop_kind, "tasks_(due, takes)": plan}
+    tasks = []
+    for i, (due, work) in enumerate(plan):
+        def busy(work=work):
+            CLK.now += work
+        tk = Rec("S%d" % i, log, [busy] if work else [])
+        tasks.append(tk)
+        LIVE_TASKS.append(tk)
+        tk.install_task(when=base + due)
+    total = plan[-1][0] + sum(w for d, w in plan) + 2.0
+    try:
+        if loop_kind == "run_once":
+            CLK.drive(duration=total, max_steps=10000)
+        else:
+            drive_with_core_run(total)
+    except StepBudgetExceeded as err:
+        run.violation("slow-tasks-do-not-drain", dict(wit, error=str(err)))
+        return
+    run.count("slow_task_cases")
+    run.count("callbacks_observed", len(log))
+    names = [n for n, tt in log]
+    if names != ["S%d" % i for i in range(len(plan))]:
+        run.violation("overdue-tasks-not-fired-once-in-order/" + loop_kind, dict(wit, fired=log))
+        return
+    for (n, tt), (due, work) in zip(log, plan):
+        if tt < base + due - 1e-9:
+            run.violation("task-fired-early/" + loop_kind, dict(wit, task=n, at=tt - base, due=due))
+            return
+    if NEGATIVE_WAITS:
+        run.violation("event-loop-asked-to-wait-a-negative-time", dict(wit, timeouts=NEGATIVE_WAITS[:3]))
+    sw = [r for r in CLK.swallowed.records if r["exc"]] if hasattr(CLK, "swallowed") else []
+    if sw:
+        run.violation("exception-in-the-loop-with-overdue-tasks/%s" % sw[0]["exc"], dict(wit, swallowed=sw[:2]))
 
 
 def deferred_batch(run, n, raising, nesting, raise_after_defer, loop_kind, with_tasks=False):
@@ -819,6 +872,10 @@ def main():
             run.case(("rec", str(iv), str(off), org, sh), sample={"interval_ms": str(iv), "offset_ms": str(off), "origin": org, "shift": sh},
                      sample_key=("rec", str(iv)))
             recurring_case(run, org, iv, off, sh, nfire, via_function=(idx % 5 == 0))
+    for i in range((3000 if thorough else 120) // (run.shard[1] if thorough else 1)):
+        for loop_kind in ("run_once", "run"):
+            run.case(("slow-tasks", run.shard[0], i, loop_kind), sample=None)
+            slow_task_case(run, rng, loop_kind)
     for i in range((6000 if thorough else 300) // (run.shard[1] if thorough else 1)):
         run.case(("recurring-life", run.shard[0], i), sample=None)
         recurring_life(run, rng, rng.choice([0.0, 1000.0, 1000000.0, 1.7e9]))
